@@ -206,8 +206,46 @@ def real_framecls(line):
     return b1.hex() + ' ' + ('same' if b1 == b2 and bytes(f.data) == pl else 'DIFF')
 
 
+def real_framethreads(line):
+    """several threads, each serialising frames of its own again and again (a short switch interval makes the interpreter
+    change threads inside the checksum loop): frames share nothing, so every serialisation must come out right"""
+    import sys
+    import threading
+    _, nthreads, length, rounds, seed = line.split('|')
+    nthreads, length, rounds, seed = int(nthreads), int(length), int(rounds), int(seed)
+    bad = [0] * nthreads
+    errs = []
+
+    def work(k):
+        try:
+            pl = lcg_payload(length + k, seed + k, 0)
+            f = make_frame(1 + k, 2 + k)
+            f.data = bytearray(pl)
+            want = wire_frame(1 + k, 2 + k, pl)
+            for _ in range(rounds):
+                if bytes(f.to_bytes()) != want:
+                    bad[k] += 1
+        except Exception as e:
+            errs.append(exc_name(e))
+    old = sys.getswitchinterval()
+    sys.setswitchinterval(1e-5)
+    try:
+        ts = [threading.Thread(target=work, args=(k,)) for k in range(nthreads)]
+        for t in ts:
+            t.start()
+        for t in ts:
+            t.join()
+    finally:
+        sys.setswitchinterval(old)
+    if errs:
+        return 'EXC:' + errs[0]
+    return f'bad={"some" if sum(bad) else 0}'
+
+
 def real_frame(line):
     p = line.split('|')
+    if p[0] == 'framethreads':
+        return real_framethreads(line)
     if p[0] == 'framecls':
         return real_framecls(line)
     if p[0] == 'frameseq':
@@ -234,6 +272,9 @@ def real_frame(line):
 def oracles_frame(line, real_out):
     p = line.split('|')
     what = 'to_bytes() = sync, class, id, 16-bit little-endian length, payload, Fletcher checksum; twice the same; frame unchanged'
+    if p[0] == 'framethreads':
+        return [{'prop': q, 'ok': real_out == 'bad=0', 'expected': 'bad=0', 'observed': real_out,
+                 'what': 'frames serialised by different threads at the same time come out right: frame objects share no state'} for q in ('C01', 'C12')], []
     if p[0] == 'framecls':
         cid = find_class(p[1]).CID
         rec = {'prop': 'C01', 'ok': real_out.endswith(' same'), 'expected': 'same', 'observed': real_out[-20:],
@@ -262,6 +303,10 @@ def oracles_frame(line, real_out):
 
 
 def gen_frame(rng, n, profile):
+    if profile == 'threads':
+        for nthreads, length, rounds in [(2, 3000, 12), (3, 1200, 20), (2, 20000, 3), (4, 600, 30)]:
+            yield f'framethreads|{nthreads}|{length}|{rounds}|{rng.randrange(1 << 20)}'
+        return
     lens = list(range(0, 300)) + [510, 511, 512, 513, 999, 1000, 1001, 4095, 4096]
     if profile.startswith('all-lengths'):
         k, K = map(int, profile.split(':')[1].split('/')) if ':' in profile else (0, 1)
@@ -276,6 +321,8 @@ def gen_frame(rng, n, profile):
         yield f'framegen|{rng.randrange(256)}|{rng.randrange(256)}|{ln}|{rng.randrange(1 << 30)}|{rng.choice([0, 0, 1, 2])}'
     for c, i in [(0, 0), (255, 255), (0xb5, 0x62)]:
         yield f'frame|{c}|{i}|'
+    for nthreads, length, rounds in [(2, 3000, 12), (3, 1200, 20), (2, 20000, 3)]:
+        yield f'framethreads|{nthreads}|{length}|{rounds}|{rng.randrange(1 << 20)}'
     for name, size in CLASSES.items():
         for pl in {b'', bytes(size or 4), bytes(rng.randrange(256) for _ in range(size or 8)), bytes(rng.randrange(256) for _ in range(1)),
                    bytes(rng.randrange(256) for _ in range((size or 8) + 3))}:
@@ -360,7 +407,9 @@ def real_ck(line):
         if p[0] == 'ckm':
             a, b = int(p[1]), int(p[2])
             c = reach(a, b)
-            hits = [f'{x}:{y}' for x in range(256) for y in range(256) if c.matches(x, y)]
+            xs = list(dict.fromkeys(list(range(256)) + [256 + a, 512 + a, (a << 8) | b, 65536 + a]))      # also arguments that are no bytes
+            ys = list(dict.fromkeys(list(range(256)) + [256 + b, 512 + b, (a << 8) | b, 65536 + b]))
+            hits = [f'{x}:{y}' for x in xs for y in ys if c.matches(x, y)]
             c2 = reach(a, b)
             c2.reset()
             return ','.join(hits) + f' reset={c2.value()[0]}:{c2.value()[1]}'
@@ -1161,19 +1210,23 @@ def gen_valset(rng, n, profile):
         yield 'valgetpoll|' + ','.join(map(str, ks))
     for _ in range(n):
         pl = bytearray([rng.choice([0, 1]), rng.choice([0, 1, 2, 7]), rng.randrange(4), 0])
-        for k in range(rng.choice([0, 1, 2, 3, 6])):
+        npairs = rng.choice([0, 1, 2, 3, 6, 6, 63, 64, 65, 66, 100, 130])
+        # at most one pair of a payload is malformed (anywhere, also behind the 64th), most payloads are well-formed
+        bad_at = rng.randrange(npairs) if npairs and rng.random() < 0.35 else -1
+        for k in range(npairs):
             key = rng.choice(keys) if rng.random() < .6 else (rng.choice([1, 2, 3, 4, 5]) << 28 | rng.randrange(256) << 16 | rng.randrange(4096))
             bits = {1: 1, 2: 8, 3: 16, 4: 32, 5: 64}[(key >> 28) & 7]
             val = bytes([rng.choice([0, 1])]) if bits == 1 else bytes(rng.choice([0, 0xff, 0x80, rng.randrange(256)]) for _ in range(WIDTH[bits]))
-            r = rng.random()
-            if r < .05:
-                key = (key & 0x0FFFFFFF) | rng.choice([0, 6, 7]) << 28
-            elif r < .1 and bits == 1:
-                val = bytes([rng.choice([2, 0xff])])
-            elif r < .15:
-                val = val[:-1]
-            elif r < .2:
-                key |= rng.choice([1 << 31, 0xf << 24, 0xf << 12])
+            if k == bad_at:
+                r = rng.random()
+                if r < .3:
+                    key = (key & 0x0FFFFFFF) | rng.choice([0, 6, 7]) << 28
+                elif r < .55 and bits == 1:
+                    val = bytes([rng.choice([2, 0xff])])
+                elif r < .8 and k == npairs - 1:
+                    val = val[:-1]
+                else:
+                    key |= rng.choice([1 << 31, 0xf << 24, 0xf << 12])       # reserved bits set: not malformed, cleared on re-encoding
             pl += struct.pack('<I', key) + val
         if rng.random() < .2:
             pl += bytes(rng.randrange(1, 4))
